@@ -24,7 +24,7 @@ if cmd:
 res={'seed':sd,'demo':demo,'place':place,'cmd':cmd}
 if not place or not cmd:
     print(json.dumps(res,indent=1)); sys.exit('cannot parse demo header')
-sh('git checkout -- . && git clean -fdq -e _seed -e _seed2 -e _seed3 -e _seed4 -e _seed5 -e _seed6')
+sh('git checkout -- . && git clean -fdq -e _seed -e _seed2 -e _seed3 -e _seed4 -e _seed5 -e _seed6 -e _seed7')
 dst=os.path.join(wt,place); os.makedirs(os.path.dirname(dst),exist_ok=True); shutil.copy(demo,dst)
 rc0,out0=sh(cmd)
 res['demo_without_change']='PASS' if rc0==0 else 'FAIL'
@@ -45,5 +45,5 @@ pk=sorted(touched|set(extra))
 res['tests_run']=pk
 rct,ot=sh('go test -vet=off -count=1 -timeout 12m -skip "TestClientServerPayload|TestClientSupervisorFallback|TestFork15Warm0Min7|TestBboltRead|TestExposing|TestFrostdbTrack" %s 2>&1 | grep -v "^ok\|no test files" | tail -15'%' '.join(pk))
 res['existing_tests_output']=ot.strip()
-sh('git checkout -- . && git clean -fdq -e _seed -e _seed2 -e _seed3 -e _seed4 -e _seed5 -e _seed6')
+sh('git checkout -- . && git clean -fdq -e _seed -e _seed2 -e _seed3 -e _seed4 -e _seed5 -e _seed6 -e _seed7')
 print(json.dumps(res,indent=1))
